@@ -38,12 +38,18 @@ CLAIMS = {
  "C15": ("other", "symbolic layout algebra over the ndarray view operations + block-map normal forms + panic-site audit",
    "Decides: the interleaver index map out[r*C+c] = in[c*R+r] (backward: in[(C-1-c)*R+r]) and that deinterleave composed with it is the identity, for both reading directions; puncture/depuncture block maps (kept positions enumerated in order, block sizes, output lengths, default fill), rate = pattern_len/num_trues, num_trues = count of trues; divisibility guards return Err with the same divisor that defines the block size and the remaining panic sites are discharged. Value equality for all vectors follows from the maps under the trusted ndarray model; it is not separately decided.",
    "Trusted: the 5-operation ndarray model (row-major reshape, t, invert_axis, assign into zeros(raw_dim), flatten); panic model; reviewed slice-bound arguments."),
+ "C16": ("other", "MIR call-graph who-may-call scan for randomness sources + traced filters/undo pairing + symbolic coupling of (seed, matrix)",
+   "Decides: the only randomness reachable from the three entry points is one ChaCha8Rng seeded from the caller's seed and threaded to every choose/choose_multiple (no thread RNG, entropy, clock, RandomState); MacKay-Neal strict row-weight filter, exactly-wc-or-error selection, girth test with bound g-1 after insertion, clear_col on rejection before the error, exact backtracking range, run-loop routing and counters; search returns (s, run(s)) for the same s of the whole range; PEG candidate set, reversed compare_some then ascending weight, seeded tie-break, wc edges per column; compare_some and sort_by_random_min tables; BFS queue discipline reported. The quantitative guarantees (girth, row-weight balance, column weights) rest on C11 and are not decided.",
+   "Trusted: ChaCha8Rng determinism, IteratorRandom uses only the RNG passed, rayon find_any semantics."),
  "C17": ("other", "effect tracing of every &mut method + mirror-symmetry check + who-may-write scan over module `sparse`",
    "Decides the premises of the induction over histories: every mutator has mirrored, correctly addressed effects on the row and column lists (insert guarded by !contains; remove retains x != index; toggle = contains ? remove : insert on the same coordinates; clear/set/bulk variants), the effect sets are invariant under rows<->cols, no method other than `new` touches the outer vectors (dimensions fixed), queries read the lists consistently, fields are private and equality is derived. The equivalence to a mathematical set for all histories follows by induction from these premises and is not separately proved.",
    "Trusted: Vec::push/retain/clear semantics; rustc's privacy checking for the field visibility recorded in the facts."),
  "C18": ("proof", "static table extraction from type-checked HIR/MIR and cross-table agreement",
    "All 36 names are decided as agreement of five finite tables (enum, factory arms from HIR and again from MIR, FromStr, Display, clap ValueEnum) plus the naming law and the variant documentation; every row is an obligation and all must discharge. Finite and exhaustive, so a table-level proof is the right level.",
    "Trusted: rustc's HIR/MIR for the crate, match-arm semantics. The behaviour of the generic decoders themselves is C01/C03, not C18."),
+ "C19": ("other", "C prototype parsing vs extern \"C\" signatures from the type-checked crate + symbolic wiring of the wrappers + panic-site audit of the constructors",
+   "Decides: header and exports agree symbol by symbol (set, arity, C type <-> Rust ABI type, return type, parameter order); decode_f64 feeds the depunctured LLRs and the caller's limit, returns iterations / -1 from the same result and copies the codeword prefix; decode_f32 widens with f64::from and delegates; encode maps b == 1 to GF2, encodes, punctures when configured, writes is_one elementwise after a length assert; extern shims build slices from matching (pointer, length) pairs; constructors return null exactly on Err with every fallible step propagated by `?`. Byte-for-byte equality with the Rust API for all buffers is not decided.",
+   "Trusted: the C type table; panic model; reviewed non-empty-pattern argument."),
  "C20": ("other", "match-table extraction, symbolic print/compute wiring through decoded format templates, length provenance of the written slice, panic-site audit of each subcommand",
    "Decides: the 21-row DVB-S2 and the CCSDS argument tables by naming law; for every generator subcommand the printed text is alist()/girth() of exactly the matrix the library call returns for the parsed arguments; Args::config copies like-named fields; the dispatcher has one arm per subcommand; encode reads k-byte words with read_exact, stops only on UnexpectedEof and writes a slice length-tied to the (punctured) codeword; fallible calls are propagated with `?`; ber result lines have 11 matching columns, are emitted per Eb/N0 change and at Finished. Actual process output and exit codes need execution and are not decided.",
    "Trusted: decoding of core::fmt templates; panic model; reviewed entries for n - rows and the [..codeword.len()] slice."),
